@@ -360,7 +360,7 @@ def nl(s):
     return '[' + '; '.join(str(ord(c)) for c in s) + ']%N'
 
 
-def observe(sql, cat_kw, I):
+def observe(sql, cat_kw, I, require_model=True):
     """plan the statement with the implementation; -> dict of Coq terms + python-side facts, or None if not applicable"""
     from mindsdb_sql import parse_sql
     from mindsdb_sql.parser.ast import Identifier, BinaryOperation, Parameter, Constant
@@ -374,7 +374,7 @@ def observe(sql, cat_kw, I):
     kinds = []
     for r, jt, on in refs:
         kinds.append('m' if pl.get_predictor(r) else 't')
-    if 'm' not in kinds:
+    if 'm' not in kinds and require_model:
         return None
     where = tr.cond(q0.where) if q0.where is not None else 'CTrue'
     ons = [(JT.get((jt or '').lower(), 'JOtherJoin'), tr.cond(on)) if on is not None else None for r, jt, on in refs]
